@@ -38,7 +38,7 @@ __CPROVER_ensures(g_starts == __CPROVER_old(g_starts) + 1)
 /* classification with the maximum request the manager knows NOW (array_grid.cc startTrackingHole: huge iff larger than max_request) */
 __CPROVER_ensures((TAGSIZE(self, h) >= LargeHoleSize && TAGSIZE(self, h) > self->max_request) ? (size_t)self->huge_holes == h : self->huge_holes == __CPROVER_old(self->huge_holes))
 /* ASSUMED: filing keeps the heads what they are */
-__CPROVER_ensures(self->huge_holes >= 0 && (self->huge_holes == 0 || (size_t)self->huge_holes == h || (HOLE_OK(self, self->huge_holes) && TAGSIZE(self, self->huge_holes) > __CPROVER_old(self->max_request))));
+__CPROVER_ensures(self->huge_holes >= 0 && (self->huge_holes == 0 || (HOLE_OK(self, self->huge_holes) && TAGSIZE(self, self->huge_holes) >= LargeHoleSize && TAGSIZE(self, self->huge_holes) > self->max_request)));
 void array_plus_grid__stopTrackingHole(struct array_plus_grid *self, node_address h)
 __CPROVER_requires(self != NULL)
 REQUIRES(the_hole_taken_for_a_request_is_a_hole, HOLE_OK(self, h))
